@@ -118,6 +118,7 @@ type Config struct {
 	StopAtFirst   bool
 	Trace         bool
 	SampleEvery   int
+	MaxSamples    int // passing paths kept for native trace validation (default 8); spread over the whole run
 	Tier          string
 }
 
@@ -154,20 +155,21 @@ type task struct {
 }
 
 type explorer struct {
-	prog  *ssa.Program
-	fn    *ssa.Function
-	cfg   Config
-	mu    sync.Mutex
-	cond  *sync.Cond
-	queue []task
-	idle  int
-	done  bool
-	res   *Result
-	paths int64
-	stop  int32
-	t0    time.Time
-	covMu sync.Mutex
-	cov   map[*ssa.BasicBlock]bool
+	prog         *ssa.Program
+	fn           *ssa.Function
+	cfg          Config
+	mu           sync.Mutex
+	cond         *sync.Cond
+	queue        []task
+	idle         int
+	done         bool
+	res          *Result
+	paths        int64
+	stop         int32
+	sampleStride int64
+	t0           time.Time
+	covMu        sync.Mutex
+	cov          map[*ssa.BasicBlock]bool
 }
 
 type worker struct {
@@ -436,19 +438,45 @@ func (w *worker) runPath(trail []Decision, fixed int) *Run {
 			atomic.StoreInt32(&ex.stop, 1)
 		}
 	}
-	if len(res.Samples) < 8 && outcome == "" && len(r.inputs) > 0 && (ex.paths%int64(1+ex.cfg.SampleEvery) == 0) {
-		if m := r.modelOf(nil); m != nil {
-			s := map[string]interface{}{}
-			for _, in := range r.inputs {
-				s[in.Name] = fmtVal(in.term.eval(m, map[*Term]uint64{}), in.Bits)
+	maxS := ex.cfg.MaxSamples
+	if maxS <= 0 {
+		maxS = 8
+	}
+	if ex.sampleStride == 0 {
+		ex.sampleStride = int64(1 + ex.cfg.SampleEvery)
+	}
+	if outcome == "" && len(r.inputs) > 0 && ex.paths%ex.sampleStride == 0 {
+		if len(res.SampleTraces) >= maxS {
+			// buffer full: keep every other sample and sample half as often from now on, so that
+			// the kept samples stay spread over everything explored so far
+			k := 0
+			for i := 0; i < len(res.SampleTraces); i += 2 {
+				res.SampleTraces[k] = res.SampleTraces[i]
+				k++
 			}
-			res.Samples = append(res.Samples, s)
-			var tr []InputRec
-			memo := map[*Term]uint64{}
-			for _, in := range r.inputs {
-				tr = append(tr, InputRec{Name: in.Name, Bits: in.Bits, Val: in.term.eval(m, memo)})
+			res.SampleTraces = res.SampleTraces[:k]
+			ex.sampleStride *= 2
+		}
+		if ex.paths%ex.sampleStride == 0 {
+			m := r.cachedModel()
+			if m == nil {
+				m = r.modelOf(nil)
 			}
-			res.SampleTraces = append(res.SampleTraces, tr)
+			if m != nil {
+				if len(res.Samples) < 8 {
+					s := map[string]interface{}{}
+					for _, in := range r.inputs {
+						s[in.Name] = fmtVal(in.term.eval(m, map[*Term]uint64{}), in.Bits)
+					}
+					res.Samples = append(res.Samples, s)
+				}
+				var tr []InputRec
+				memo := map[*Term]uint64{}
+				for _, in := range r.inputs {
+					tr = append(tr, InputRec{Name: in.Name, Bits: in.Bits, Val: in.term.eval(m, memo)})
+				}
+				res.SampleTraces = append(res.SampleTraces, tr)
+			}
 		}
 	}
 	return r
@@ -545,6 +573,25 @@ func (r *Run) evalModel(t *Term) (val bool, ok bool) {
 		r.model = Model{}
 	}
 	return t.eval(r.model, map[*Term]uint64{}) == 1, true
+}
+
+// cachedModel returns the cached model when it satisfies the whole path condition (checked by
+// exact evaluation of every conjunct), so that sampling a passing path needs no solver call.
+func (r *Run) cachedModel() Model {
+	if r.model == nil {
+		return nil
+	}
+	memo := map[*Term]uint64{}
+	for _, t := range r.pc {
+		if t.eval(r.model, memo) != 1 {
+			return nil
+		}
+	}
+	m := Model{}
+	for k, v := range r.model {
+		m[k] = v
+	}
+	return m
 }
 
 // installModel records a solver model for the variables it covers.
